@@ -4,6 +4,7 @@ use vstd::prelude::*;
 use std::{marker::PhantomData, ops::RangeFrom};
 verus! {
 //@ default-tags C10
+//@ verus-flags --rlimit 60
 //@ compile-run C10,C15 table_wf\(TLDList\) checker says: true
 //@ include ../_common/str_prelude.rs
 //@ source types public-suffix/src/types.rs
@@ -58,6 +59,68 @@ pub open spec fn lb(b: Seq<u8>, i: int) -> bool { i == 0 || (0 < i <= b.len() &&
 pub open spec fn lb_suffix(r: Seq<u8>, d: Seq<u8>) -> bool { r.len() <= d.len() && r == d.subrange(d.len() - r.len(), d.len() as int) && (lb(d, d.len() - r.len()) || r.len() == 0) }
 pub open spec fn no_empty_label(b: Seq<u8>) -> bool { !(b.len() > 0 && b[0] == 46u8) && !(b.len() > 0 && b[b.len() - 1] == 46u8) && !has_dotdot(b) }
 
+// ---- the lookup algorithm over the table, as a specification (the walk of the rule trie described by
+//      publicsuffix.org / golang.org/x/net/publicsuffix: labels are matched right to left; a normal rule makes
+//      the matched labels the suffix, a wildcard on the parent adds one label, an exception rule ends the walk
+//      with the exception's own label removed; no match at all => the rightmost label, rule "*")
+pub open spec fn c_wild<T: Table>(j: int) -> bool { (((((T::CHILDREN@[j] >> T::CHILDREN_BITS_LO) >> T::CHILDREN_BITS_HI) >> T::CHILDREN_BITS_NODE_TYPE)) & lmask(T::CHILDREN_BITS_WILDCARD)) != 0 }
+pub open spec fn last_dot_of(b: Seq<u8>) -> Option<int>
+    decreases b.len()
+{
+    if b.len() == 0 { None } else if b[b.len() - 1] == 46u8 { Some(b.len() - 1) } else { last_dot_of(b.drop_last()) }
+}
+pub broadcast proof fn lemma_last_dot(b: Seq<u8>, r: Option<usize>)
+    requires #[trigger] last_dot(b, r)
+    ensures last_dot_of(b) == (match r { Some(i) => Some(i as int), None => None::<int> })
+    decreases b.len()
+{
+    if b.len() > 0 && b[b.len() - 1] != 46u8 {
+        let c = b.drop_last();
+        assert(last_dot(c, r)) by { assert forall|j: int| 0 <= j < c.len() implies c[j] == b[j] by {} }
+        lemma_last_dot(c, r);
+    }
+}
+pub open spec fn find_spec<T: Table>(label: Seq<u8>, lo: int, hi: int) -> Option<int> {
+    if exists|i: int| lo <= i < hi && #[trigger] label_of::<T>(i) == label { Some(choose|i: int| lo <= i < hi && #[trigger] label_of::<T>(i) == label) } else { None }
+}
+pub proof fn lemma_find_spec_some<T: Table>(label: Seq<u8>, lo: int, hi: int, f: int)
+    requires sorted_range::<T>(lo, hi), lo <= f < hi, label_of::<T>(f) == label,
+    ensures find_spec::<T>(label, lo, hi) == Some(f)
+{
+    broadcast use group_lex_order;
+    let c = choose|i: int| lo <= i < hi && #[trigger] label_of::<T>(i) == label;
+    if c < f { assert(lex_lt(label_of::<T>(c), label_of::<T>(f))); }
+    if f < c { assert(lex_lt(label_of::<T>(f), label_of::<T>(c))); }
+}
+pub open spec fn walk<T: Table>(d: Seq<u8>, end: int, lo: int, hi: int, wildcard: bool, suffix: int) -> int
+    decreases end
+{
+    if end < 0 || end > d.len() { suffix } else {
+    let s = d.subrange(0, end);
+    let dot = last_dot_of(s);
+    let start = match dot { Some(k) => k + 1, None => 0 };
+    let suffix1 = if wildcard { start } else { suffix };
+    if lo == hi { suffix1 } else {
+        match find_spec::<T>(s.subrange(start, end), lo, hi) {
+            None => suffix1,
+            Some(f) => {
+                let ch = n_child::<T>(f);
+                let ty = c_type::<T>(ch);
+                if ty != T::NODE_TYPE_NORMAL && ty == T::NODE_TYPE_EXCEPTION { end + 1 } else {
+                    let suffix2 = if ty == T::NODE_TYPE_NORMAL { start } else { suffix1 };
+                    match dot {
+                        None => suffix2,
+                        Some(k) => if 0 <= k < end { walk::<T>(d, k, c_lo::<T>(ch), c_hi::<T>(ch), c_wild::<T>(ch), suffix2) } else { suffix2 },
+                    }
+                }
+            }
+        }
+    } }
+}
+pub open spec fn spec_ps_start<T: Table>(d: Seq<u8>) -> int {
+    let w = walk::<T>(d, d.len() as int, 0, T::NUM_TLD as int, false, d.len() as int);
+    if w == d.len() { match last_dot_of(d) { Some(k) => k + 1, None => 0 } } else { w }
+}
 //@ extract psl struct ListProvider
 //@ extract psl enum Error
 //@ extract psl trait EffectiveTLDProvider
